@@ -550,12 +550,24 @@ def main(tier):
     cov = {"engine_c": {"lemmas": cres, "obligations": len(cres), "discharged": sum(1 for r in cres if r["status"] == "discharged"), "note": note,
                         "conclusion": "model==zlib (vectors) + per-bit linearity + zero-step injectivity + burst lemma => any alteration confined to <= 32 consecutive "
                         "consumed bits changes the CRC-32 of a message of ANY length"}}
+    from vlib import auxb
+
+    extra_b, cov_b = auxb.run("harness.aux_c12_grow", tier)
+    extra += extra_b
+    cov.update(cov_b)
     return enginea.main(__name__, tier, extra_results=extra, extra_cov=cov)
 
 
 def replay(path):
+    import json
+
     from vlib.chplug import enginea
 
+    v = json.load(open(path))
+    if v.get("grow"):
+        from vlib import auxb
+
+        return auxb.replay("harness.aux_c12_grow", v)
     return enginea.replay_file(__name__, path)
 
 
@@ -564,7 +576,7 @@ ASSUMPTIONS = [
     "a 'burst' is a set of altered bits confined to <= 32 consecutive bits in the order the CRC consumes them (bytes in order, least-significant bit first); unaligned 26..32-bit windows in MSB-first memory order can span 40 consumed bits and are not claimed",
     "error-message formatting in afkak._util._buffer_underflow is replaced by BufferUnderflowError(what) (type and raise site untouched); gzip is a tagged identity",
     "time/memory proportionality is replaced by a step bound: at most 4*N+8 primitive-reader calls on an N-byte input",
-    "the consumer's reaction to the fetch-size-too-small signal (grow the buffer, refetch the same offset) is decided by C14's grow obligations",
+    "the consumer's reaction to the fetch-size-too-small signal (grow the buffer, refetch the same offset) is decided by the buffer-growth scenario shared with C14 (engine B, symbolic buffer / maximum / message sizes)",
 ]
 
 BOUNDS = {
